@@ -272,9 +272,27 @@ func c13Concurrent(ch *zsim.Choices, trace bool) *RunResult {
 							direct++
 							continue
 						}
-						lvl := []zerolog.Level{zerolog.InfoLevel, zerolog.DebugLevel, zerolog.WarnLevel, zerolog.ErrorLevel, zerolog.TraceLevel}[ch.Intn(5)]
+						lvl := []zerolog.Level{zerolog.InfoLevel, zerolog.DebugLevel, zerolog.WarnLevel, zerolog.ErrorLevel, zerolog.TraceLevel, zerolog.Disabled}[ch.Intn(6)]
 						id := fmt.Sprintf("p%d.t%d.%d", ph, t, i)
-						evs = append(evs, evRec{id, ph, lvl >= lgLevel && lvl >= glob})
+						if lvl == zerolog.DebugLevel && ch.Chance(1, 2) {
+							// the Print family logs at debug level: one consultation per call, like any event
+							switch ch.Intn(3) {
+							case 0:
+								evs = append(evs, evRec{id, ph, lvl >= lgLevel && lvl >= glob})
+								lg.Print(id)
+							case 1:
+								evs = append(evs, evRec{id, ph, lvl >= lgLevel && lvl >= glob})
+								lg.Printf("%s", id)
+							default:
+								// Logger.Write logs without a level (NoLevel passes every threshold)
+								evs = append(evs, evRec{id, ph, true})
+								lg.Write([]byte(id))
+							}
+							zsim.Probe("print_family_event")
+							continue
+						}
+						// an event created with WithLevel(Disabled) is never written and never sampled
+						evs = append(evs, evRec{id, ph, lvl != zerolog.Disabled && lvl >= lgLevel && lvl >= glob})
 						lg.WithLevel(lvl).Msg(id)
 					}
 				}))
@@ -418,18 +436,20 @@ func c13Sequential(ch *zsim.Choices, trace bool) *RunResult {
 				clock = 0
 			}
 			// WithLevel(Fatal/Panic) neither exits nor panics; LevelSampler has no slot for them
-			lvl := []zerolog.Level{zerolog.InfoLevel, zerolog.DebugLevel, zerolog.WarnLevel, zerolog.ErrorLevel, zerolog.TraceLevel, zerolog.NoLevel, zerolog.FatalLevel, zerolog.PanicLevel, zerolog.Level(9)}[ch.Intn(9)]
+			lvl := []zerolog.Level{zerolog.InfoLevel, zerolog.DebugLevel, zerolog.WarnLevel, zerolog.ErrorLevel, zerolog.TraceLevel, zerolog.NoLevel, zerolog.FatalLevel, zerolog.PanicLevel, zerolog.Level(9), zerolog.Disabled}[ch.Intn(10)]
 			var got, want bool
-			viaLogger := ch.Chance(1, 2)
+			viaLogger := ch.Chance(1, 2) || lvl == zerolog.Disabled
 			if viaLogger {
 				id := fmt.Sprintf("s%d", i)
 				if lvl == zerolog.NoLevel {
 					lg.Log().Msg(id)
+				} else if lvl == zerolog.DebugLevel && ch.Chance(1, 2) {
+					lg.Print(id)
 				} else {
 					lg.WithLevel(lvl).Msg(id)
 				}
 				got = sink.got[id] == 1
-				if lvl < lgLevel {
+				if lvl < lgLevel || lvl == zerolog.Disabled {
 					// rejected by the level gate: must not reach the sampler (model untouched)
 					want = false
 					zsim.Probe("level_rejected_event")
